@@ -32,9 +32,10 @@ PROTOCOL_IMPL = {
 PLACEHOLDERS = {'usim._core.handler.MissingLoop'}
 
 AWAITABLE = frozenset({('awaitable',)})
+CALLABLE = frozenset({('callable',)})
 _TYPING_AWAITABLE = {'Coroutine', 'Awaitable'}
 _TYPING_OPAQUE = {
-    'Generator', 'Any', 'Callable', 'AsyncIterable',
+    'Generator', 'Any', 'AsyncIterable',
     'AsyncIterator', 'Iterable', 'Iterator', 'TypeVar', 'Sequence', 'ClassVar',
     'Generic', 'NamedTuple', 'AnyT',
 }
@@ -187,6 +188,8 @@ class TypeEngine:
                 return frozenset({('cont', _CONTAINERS[base_name], elem)})
             if base_name in _TYPING_AWAITABLE:
                 return AWAITABLE
+            if base_name == 'Callable':
+                return CALLABLE
             if base_name in _TYPING_OPAQUE:
                 return UNKNOWN
             return self.ann_type(base, module, fn)
@@ -200,6 +203,8 @@ class TypeEngine:
             short = binding[1].split('.')[-1]
             if short in _TYPING_AWAITABLE:
                 return AWAITABLE
+            if short == 'Callable':
+                return CALLABLE
             if short in _TYPING_OPAQUE:
                 return UNKNOWN
             if short in _CONTAINERS:
@@ -1026,6 +1031,9 @@ class TypeEngine:
                 callees.append(Callee(self.p.functions[term[1]], frame.recv))
             elif kind == 'extfn':
                 externals.append(('extfn', term[1]))
+            elif kind == 'callable':
+                # a callable handed in by the user (e.g. a comparison operator)
+                externals.append(('callable', ast.unparse(func)))
             elif kind == 'extmeth':
                 externals.append(('extmeth', term[1], term[2]))
             elif kind == 'inst':
